@@ -1147,7 +1147,19 @@ class ModelBuilder:
                                 already_exists = True
                                 break
                         if not already_exists:
-                            existing_deps.append(source_task)
+                            # Keep the options of the precedes item (same keys as 'depends')
+                            new_dep: Any = source_task
+                            if isinstance(prec_item, dict):
+                                options = {
+                                    "gapduration": prec_item.get("gapduration"),
+                                    "gaplength": prec_item.get("gaplength"),
+                                    "maxgapduration": prec_item.get("maxgapduration"),
+                                    "onstart": prec_item.get("onstart", False),
+                                    "onend": prec_item.get("onend", False),
+                                }
+                                if any(options.values()):
+                                    new_dep = {"task": source_task, **options}
+                            existing_deps.append(new_dep)
                             target_task[("depends", scIdx)] = existing_deps
 
     def _resolve_task_reference(self, project: Project, from_task: Task, ref: str) -> Optional[Task]:
